@@ -51,6 +51,12 @@ def jobs(tier, seed):
     for j in GC.pair_jobs(tier, seed, algo="original", n_pairs_quick=6):
         j["family"] = "original:" + j["family"]
         J.append(j)
+    if tier == "quick":
+        # parallel axis-aligned boxes of unequal size at grid offsets: exactly degenerate cases of the Johnson sub-algorithm
+        P = GC.POLY_CORPUS
+        for si in (0, 1, 2, 6):
+            J.append({"family": "original:box_box2", "args": {"a": P[0], "b": P[7], "sweep": GC.SWEEPS[si], "a_pose": 0, "swap": si % 2 == 1,
+                                                              "algo": "original"}})
     for algo in ("nesterov", "nesterov_acc", "prim", "prim_acc"):
         for j in GC.pair_jobs(tier, seed, algo=algo, n_pairs_quick=3):
             if algo.startswith("prim") and not (j["args"]["a"]["type"] == "box" and j["args"]["b"]["type"] == "box"):
